@@ -36,7 +36,7 @@ FLOORS = {"quick": {"scenarios": 6000, "offers_matched": 30000, "stopoffers_matc
                     "simple_service_stop_announce": 100, "stop_before_first_offer": 150, "restart_scenarios": 400,
                     "mesh_scenarios": 100, "mesh_offer_intervals_checked": 120, "mesh_stopped_intervals_checked": 24}}
 # system-level shards: the mesh workload of pv/mesh.py under this property's boundary monitors (reports of other monitors are dropped)
-MESH = {"want": ("offerlife",), "claim": ("mesh:offer-with-nonzero-ttl-queued-while", "mesh:stop-after-offering-queues", "mesh:stop-queues", "mesh:offer-content-differs"),
+MESH = {"want": ("offerlife",), "claim": ("mesh:offer-with-nonzero-ttl-queued-while", "mesh:stop-after-offering-queues", "mesh:stop-queues", "mesh:offer-content-differs", "mesh:live-offer-on-the-wire-after"),
         "quick": (2, 60), "thorough": (16, 1500)}
 
 FOREVER = 0xFFFFFF
